@@ -18,7 +18,9 @@ COQ_TARGETS = ["Properties/C13.vo"]
 THEOREMS = ["C13_escape_roundtrip", "C13_escape_roundtrip_entry", "C13_serialise_octets_ascii",
             "C13_relative_name_roundtrip", "C13_zone_roundtrip", "C13_built_closed", "C13_own_order_admissible", "C13_regroup_admissible",
             "C13_normalise_idempotent", "C13_loaded_built", "C13_loaded_roundtrip", "C13_codec_instance",
-            "C13_zone_roundtrip_zf", "C13_ztoz_twice_zf"]
+            "C13_zone_roundtrip_zf", "C13_ztoz_twice_zf",
+            "C13_normalise_idempotent_text", "C13_normalise_idempotent_text_loaded", "C13_normalise_idempotent_text_zf",
+            "C13_ztoz_text_fixpoint_zf"]
 RULE = ("cases: zones obtained by parsing generated zone-file text (labels over all ASCII octets except '.', incl. @ ; ( ) \" \\ "
         "space * and controls; RDATA over all 256 octets; authoritative and not; root and non-root apex; wildcard and apex "
         "records) and zones built through Zone::new/insert/insert_wildcard (ASCII dot-free labels not starting with '*', all "
@@ -33,7 +35,10 @@ ASSUMPTIONS = [
     "zone_roundtrip covers built zones whose apex and ordinary owners do not have the single octet '*' as leftmost label "
     "(such an owner is the wildcard syntax; loaded zones never have one since fix 0286676, proved: loaded_built)",
     "zone equality is stated up to the order of the type groups of a name (zone_same: per node and type the same record "
-    "lists); that the model's own second-pass TEXT is literally the first-pass text is checked by the stream, not proved",
+    "lists). For the MODEL's own (deterministic, insertion) order of the type groups the second-pass TEXT is proved to be "
+    "literally the first-pass text (C13_normalise_idempotent_text*); for the implementation's HashMap order the statement that "
+    "carries over is C13_normalise_idempotent (any admissible order: same zone; same order: same text), and the stream compares "
+    "the implementation's two texts after the per-block line sort",
 ]
 
 CORPUS = os.path.join(core.VERIF, "corpus", "C13")
